@@ -63,6 +63,8 @@ impl Write for WritableFile {
         self.content.flush()?;
         let mut content = self.content.get_ref().clone();
         swap(&mut content, self.content.get_mut());
+        #[cfg(manuel_woelker_rust_vfs_verif)]
+        crate::verif_hooks::yield_point("memory");
         let mut handle = self.fs.write().unwrap();
         let previous_file = handle.files.get(&self.destination);
 
@@ -150,6 +152,8 @@ impl Seek for ReadableFile {
 impl FileSystem for MemoryFS {
     fn read_dir(&self, path: &str) -> VfsResult<Box<dyn Iterator<Item = String> + Send>> {
         let prefix = format!("{}/", path);
+        #[cfg(manuel_woelker_rust_vfs_verif)]
+        crate::verif_hooks::yield_point("memory");
         let handle = self.handle.read().unwrap();
         if let Some(file) = handle.files.get(path) {
             if file.file_type != VfsFileType::Directory {
@@ -181,6 +185,8 @@ impl FileSystem for MemoryFS {
     }
 
     fn create_dir(&self, path: &str) -> VfsResult<()> {
+        #[cfg(manuel_woelker_rust_vfs_verif)]
+        crate::verif_hooks::yield_point("memory");
         let mut handle = self.handle.write().unwrap();
         handle.ensure_has_parent(path)?;
         let map = &mut handle.files;
@@ -211,6 +217,8 @@ impl FileSystem for MemoryFS {
     fn open_file(&self, path: &str) -> VfsResult<Box<dyn SeekAndRead + Send>> {
         self.set_access_time(path, SystemTime::now())?;
 
+        #[cfg(manuel_woelker_rust_vfs_verif)]
+        crate::verif_hooks::yield_point("memory");
         let handle = self.handle.read().unwrap();
         let file = handle.files.get(path).ok_or(VfsErrorKind::FileNotFound)?;
         ensure_file(file)?;
@@ -223,6 +231,8 @@ impl FileSystem for MemoryFS {
     fn create_file(&self, path: &str) -> VfsResult<Box<dyn SeekAndWrite + Send>> {
         let content = Arc::new(Vec::<u8>::new());
         {
+            #[cfg(manuel_woelker_rust_vfs_verif)]
+            crate::verif_hooks::yield_point("memory");
             let mut handle = self.handle.write().unwrap();
             handle.ensure_has_parent(path)?;
             if let Some(file) = handle.files.get(path) {
@@ -248,6 +258,8 @@ impl FileSystem for MemoryFS {
     }
 
     fn append_file(&self, path: &str) -> VfsResult<Box<dyn SeekAndWrite + Send>> {
+        #[cfg(manuel_woelker_rust_vfs_verif)]
+        crate::verif_hooks::yield_point("memory");
         let handle = self.handle.write().unwrap();
         let file = handle.files.get(path).ok_or(VfsErrorKind::FileNotFound)?;
         ensure_file(file)?;
@@ -262,6 +274,8 @@ impl FileSystem for MemoryFS {
     }
 
     fn metadata(&self, path: &str) -> VfsResult<VfsMetadata> {
+        #[cfg(manuel_woelker_rust_vfs_verif)]
+        crate::verif_hooks::yield_point("memory");
         let guard = self.handle.read().unwrap();
         let files = &guard.files;
         let file = files.get(path).ok_or(VfsErrorKind::FileNotFound)?;
@@ -275,6 +289,8 @@ impl FileSystem for MemoryFS {
     }
 
     fn set_creation_time(&self, path: &str, time: SystemTime) -> VfsResult<()> {
+        #[cfg(manuel_woelker_rust_vfs_verif)]
+        crate::verif_hooks::yield_point("memory");
         let mut guard = self.handle.write().unwrap();
         let files = &mut guard.files;
         let file = files.get_mut(path).ok_or(VfsErrorKind::FileNotFound)?;
@@ -285,6 +301,8 @@ impl FileSystem for MemoryFS {
     }
 
     fn set_modification_time(&self, path: &str, time: SystemTime) -> VfsResult<()> {
+        #[cfg(manuel_woelker_rust_vfs_verif)]
+        crate::verif_hooks::yield_point("memory");
         let mut guard = self.handle.write().unwrap();
         let files = &mut guard.files;
         let file = files.get_mut(path).ok_or(VfsErrorKind::FileNotFound)?;
@@ -295,6 +313,8 @@ impl FileSystem for MemoryFS {
     }
 
     fn set_access_time(&self, path: &str, time: SystemTime) -> VfsResult<()> {
+        #[cfg(manuel_woelker_rust_vfs_verif)]
+        crate::verif_hooks::yield_point("memory");
         let mut guard = self.handle.write().unwrap();
         let files = &mut guard.files;
         let file = files.get_mut(path).ok_or(VfsErrorKind::FileNotFound)?;
@@ -305,10 +325,14 @@ impl FileSystem for MemoryFS {
     }
 
     fn exists(&self, path: &str) -> VfsResult<bool> {
+        #[cfg(manuel_woelker_rust_vfs_verif)]
+        crate::verif_hooks::yield_point("memory");
         Ok(self.handle.read().unwrap().files.contains_key(path))
     }
 
     fn remove_file(&self, path: &str) -> VfsResult<()> {
+        #[cfg(manuel_woelker_rust_vfs_verif)]
+        crate::verif_hooks::yield_point("memory");
         let mut handle = self.handle.write().unwrap();
         let file = handle.files.get(path).ok_or(VfsErrorKind::FileNotFound)?;
         ensure_file(file)?;
@@ -320,6 +344,8 @@ impl FileSystem for MemoryFS {
     }
 
     fn remove_dir(&self, path: &str) -> VfsResult<()> {
+        #[cfg(manuel_woelker_rust_vfs_verif)]
+        crate::verif_hooks::yield_point("memory");
         let mut handle = self.handle.write().unwrap();
         let file = handle.files.get(path).ok_or(VfsErrorKind::FileNotFound)?;
         if file.file_type != VfsFileType::Directory {
